@@ -20,8 +20,11 @@ def facts_factx(repo, lean):
     return info
 
 
+# the thorough sizes below finish in 5-30 s on 16 cores; the thorough tier multiplies them (a few minutes per check)
+THOROUGH_SCALE = int(os.environ.get('VERIF_THOROUGH_SCALE', '4'))
+
 def H(cmd, oracle, quick, thorough, **kw):
-    d = dict(cmd=cmd, oracle=oracle, n=dict(quick=quick, thorough=thorough))
+    d = dict(cmd=cmd, oracle=oracle, n=dict(quick=quick, thorough=thorough * (1 if cmd == 'gombokrun' else THOROUGH_SCALE)))
     d.update(kw)
     return d
 
